@@ -71,7 +71,7 @@ def gen_ops(rng, depth, budget, fid, npool=4):
         if r < 0.3:
             ops.append(["get", rng.choice(NAMES), rng.choice([None, None, "bold", "nosuch.style2"])])
         elif r < 0.55 and depth < 4:
-            ops.append(["use", rng.randrange(npool), rng.random() < 0.6, gen_ops(rng, depth + 1, budget, fid)])
+            ops.append(["use", rng.randrange(npool), rng.random() < 0.6, gen_ops(rng, depth + 1, budget, fid), rng.random() < 0.15])
         elif r < 0.72 and depth < 4:
             ops.append(["push", rng.randrange(npool), rng.random() < 0.6, gen_ops(rng, depth + 1, budget, fid)])
         elif r < 0.82 and depth > 0:
@@ -298,11 +298,32 @@ class Prog:
                 before = [self.model_lookup(n, None) for n in NAMES]
                 try:
                     if k == "use":
-                        with con.use_theme(theme, inherit=inherit):
-                            self.layers.append(layer)
-                            self.layer_is_use.append(True)
-                            self.check_all("inside use_theme")
-                            self.run_ops(body, depth + 1)
+                        ctx = con.use_theme(theme, inherit=inherit)
+                        reenter = len(op) > 4 and op[4]
+
+                        def block(inner, where):
+                            with ctx:
+                                self.layers.append(layer)
+                                self.layer_is_use.append(True)
+                                try:
+                                    self.check_all(where)
+                                    inner()
+                                finally:
+                                    self.layers.pop()
+                                    self.layer_is_use.pop()
+
+                        if reenter:
+                            # the same context object entered again while it is active: two
+                            # pushes, two pops
+                            self.probes["use_theme_reentered"] = self.probes.get("use_theme_reentered", 0) + 1
+
+                            def twice():
+                                block(lambda: self.run_ops(body, depth + 1), "inside a re-entered use_theme")
+                                self.check_all("after the inner exit of a re-entered use_theme")
+
+                            block(twice, "inside use_theme")
+                        else:
+                            block(lambda: self.run_ops(body, depth + 1), "inside use_theme")
                     else:
                         con.push_theme(theme, inherit=inherit)
                         self.layers.append(layer)
@@ -316,7 +337,7 @@ class Prog:
                     self.probes["unwound_blocks"] += 1
                     raise
                 finally:
-                    if len(self.layers) > 1 and self.layers[-1][0] is layer[0] and self.layers[-1] == layer:
+                    if k == "push" and len(self.layers) > 1 and self.layers[-1][0] is layer[0] and self.layers[-1] == layer:
                         self.layers.pop()
                         self.layer_is_use.pop()
                 after = [self.model_lookup(n, None) for n in NAMES]
